@@ -25,6 +25,7 @@ RULE = ("relational filters: to-one paths of depth 1..3 compared to literals / n
         "children, NULL foreign keys, shared m2m children) + random instances. distinct = "
         "distinct (filter text, instance); non-trivial = selects at least one judged parent "
         "and rejects at least one")
+RULE += (" " + "Schema also has: Region (NOT NULL key, innerjoin hint), relationship name 'home' on two entities to two tables (Post.home NOT NULL), one-to-one Profile seen from the side without the key; instances with dangling keys (SQLAlchemy only).")
 ASSUMPTIONS = ["reference evaluation over the object graph in vpmon/gen/relational.py",
                "to-one navigation inside a lambda body is outside the quantifier (reported "
                "lane only); all() through a missing to-one owner is not pinned (UNSPEC)",
